@@ -137,6 +137,15 @@ class ConcreteEngine:
     @staticmethod
     def exact(x): return Fraction(x)
 
+    @staticmethod
+    def is_rounding(mode, m, v):
+        m, v = Fraction(m), Fraction(v)
+        return m.denominator == 1 and int(m) == round_q(mode, v)
+
+    @staticmethod
+    def div_is_rounding(mode, m, x, y):
+        return int(m) == round_q(mode, Fraction(int(x), int(y)))
+
     def stub(self, name):
         pass
 
@@ -145,3 +154,38 @@ class ConcreteEngine:
 
     def rounding_args(self):
         return None
+
+
+def round_q(mode, v):
+    """Textbook rounding of a rational to an integer (independent of decimalfp)."""
+    import math
+    v = Fraction(v)
+    name = getattr(mode, 'name', str(mode))
+    fl = math.floor(v)
+    if v == fl:
+        return fl
+    ce = fl + 1
+    tr = fl if v >= 0 else ce            # towards zero
+    aw = ce if v >= 0 else fl            # away from zero
+    if name == 'ROUND_FLOOR':
+        return fl
+    if name == 'ROUND_CEILING':
+        return ce
+    if name == 'ROUND_DOWN':
+        return tr
+    if name == 'ROUND_UP':
+        return aw
+    if name == 'ROUND_05UP':
+        return aw if abs(tr) % 10 in (0, 5) else tr
+    d = v - fl                           # in (0, 1)
+    if d < Fraction(1, 2):
+        return fl
+    if d > Fraction(1, 2):
+        return ce
+    if name == 'ROUND_HALF_UP':
+        return aw
+    if name == 'ROUND_HALF_DOWN':
+        return tr
+    if name == 'ROUND_HALF_EVEN':
+        return fl if fl % 2 == 0 else ce
+    raise ValueError(mode)
